@@ -1,5 +1,6 @@
 ---------------------------- MODULE Discovery_Trace ---------------------------
-(* Trace validation of real GeckoAsyncLocator.discover() runs on the virtual loop.
+(* Trace validation of real GeckoAsyncLocator.discover() runs on the virtual loop, and of the blocking
+   GeckoLocator.start_discovery(True) on the stepped engine (ListsAll = TRUE).
    Times are virtual milliseconds since the locator's endpoint was opened.  Events:
      [k |-> "arrive", id, spa, t]                  a hello reply entered the receive queue
      [k |-> "pop", id, t]                          the hello consumer took it (queue wrapper)
@@ -31,14 +32,15 @@ TArrive == /\ More /\ E.k = "arrive" /\ pending = "" /\ At(E.t)
            /\ queue' = Append(queue, [id |-> E.id, spa |-> E.spa])
            /\ headSince' = IF queue = <<>> THEN E.t ELSE headSince
            /\ arrivals' = arrivals + 1
-           /\ UNCHANGED <<seen, spas, found, nextC, nextD, phase, ret, consumedAt, pending>> /\ Step
+           /\ UNCHANGED <<seen, spas, found, nextC, nextD, phase, ret, consumedAt, foundAt, pending>> /\ Step
 TPop == /\ More /\ E.k = "pop" /\ pending = "" /\ At(E.t)
         /\ queue # <<>> /\ Head(queue).id = E.id               \* FIFO
         /\ LET s == Head(queue).spa IN
            /\ queue' = Tail(queue) /\ headSince' = E.t
            /\ IF s \in seen \/ ~Wanted(s)
-              THEN UNCHANGED <<seen, spas, found, consumedAt, pending>>
-              ELSE /\ seen' = seen \cup {s} /\ spas' = Append(spas, s) /\ found' = (found \/ Filtered)
+              THEN UNCHANGED <<seen, spas, found, consumedAt, foundAt, pending>>
+              ELSE /\ seen' = seen \cup {s} /\ spas' = Append(spas, s) /\ found' = (found \/ Finds(s))
+                   /\ foundAt' = (IF ~found /\ Finds(s) THEN E.t ELSE foundAt)
                    /\ consumedAt' = [consumedAt EXCEPT ![s] = E.t] /\ pending' = s
         /\ UNCHANGED <<nextC, nextD, phase, ret, arrivals>> /\ Step
 TDisc == /\ More /\ E.k = "disc" /\ pending = E.spa /\ E.t = now
@@ -48,16 +50,16 @@ TRet == /\ More /\ E.k = "ret" /\ pending = "" /\ E.t >= now /\ HeadOk(E.t)
         /\ E.spas = spas                                        \* listed = discovered, in order, once each
         /\ E.closed /\ E.loctasks = 0
         /\ IF spas = <<>> THEN E.t >= Timeout /\ E.t <= Timeout + Poll + Eps + Log.late
-           ELSE IF Filtered THEN E.t <= consumedAt[spas[1]] + Log.hd + Poll + Eps + Log.late   \* has_found_spa is set after the client handler returns
+           ELSE IF found THEN E.t <= foundAt + Log.hd + Poll + Eps + Log.late   \* has_found_spa is set after the client handler returns
            ELSE LET t1 == consumedAt[spas[1]]  base == IF t1 > Initial THEN t1 ELSE Initial IN
                 E.t > Initial - Eps /\ E.t <= base + Poll + Eps + Log.late
         /\ phase' = "done" /\ ret' = E.t /\ now' = E.t
-        /\ UNCHANGED <<queue, seen, spas, found, nextC, nextD, arrivals, consumedAt, headSince, pending>> /\ Step
+        /\ UNCHANGED <<queue, seen, spas, found, nextC, nextD, arrivals, consumedAt, foundAt, headSince, pending>> /\ Step
 
 TNext == TArrive \/ TPop \/ TDisc \/ TRet
 TSpec == TInit /\ [][TNext]_tvars
 Track == /\ TKTrack(tid, l, l > Len(Ev))
-         /\ (~NoDuplicates => TKWhy(tid, "NoDuplicates")) /\ (~OnlyRequested => TKWhy(tid, "OnlyRequested"))
-         /\ NoDuplicates /\ OnlyRequested
+         /\ (~NoDuplicates => TKWhy(tid, "NoDuplicates")) /\ (~OnlyRequested => TKWhy(tid, IF ListsAll THEN "KF:ListsAll" ELSE "OnlyRequested"))
+         /\ NoDuplicates /\ (OnlyRequested \/ ListsAll)
 Report == TKReport
 ===============================================================================
